@@ -7,6 +7,7 @@ CONSTANTS
   Segs = {}
   Sizes = {0, 1, 255, 256, 65535, 65536}
   BigSizes = {}
+  BigFull = FALSE
   SeqLens = {}
   Salts = {}
   SimLen = 6
